@@ -56,8 +56,9 @@ reg('Cci', cfg=lambda r, h: ([P(r, h)], []), default=([20], []), idle=lambda ns:
     inds=[('Cci', lambda ns: ns, 'hlc')],
     rule=lambda v, s, pv: B if v[0] >= 100 else (S if v[0] <= -100 else H),
     margin=lambda v, s, pv: min(abs(v[0] - 100), abs(v[0] + 100)))
-reg('Dema', cfg=lambda r, h: (list(two_sorted(r, h)), []), default=([5, 35], []), idle=lambda ns: 2 * ns[1] - 2,
-    inds=[('Dema', lambda ns: [ns[0], ns[0]], 'c'), ('Dema', lambda ns: [ns[1], ns[1]], 'c')],
+reg('Dema', cfg=lambda r, h: (list(two_sorted(r, h)), []), default=([5, 35], []),
+    idle=lambda ns: ns[1] + (ns[3] if len(ns) > 3 else ns[1]) - 2,
+    inds=[('Dema', lambda ns: [ns[0], ns[2] if len(ns) > 3 else ns[0]], 'c'), ('Dema', lambda ns: [ns[1], ns[3] if len(ns) > 3 else ns[1]], 'c')],
     rule=lambda v, s, pv: gt(v[0], v[1]), margin=lambda v, s, pv: abs(v[0] - v[1]))
 reg('Envelope', cfg=lambda r, h: ([r.choice([0, 1]), P(r, h)], [r.choice([0.0, 5.0, 20.0, 2.5])]), default=([0, 20], [20.0]),
     idle=lambda ns: ns[1] - 1, inds=[('Envelope', lambda ns: ns, 'c')], pass_fs=True,
